@@ -7,7 +7,7 @@ PROPS = "RotoV.Props.C07"
 PROPS_CYCLE = "RotoV.Props.C07Cycle"
 MODULES_CYCLE = [
     "RotoV.Model.TcValueCycle", "RotoV.Model.TcValueCyclePinned", "RotoV.Lemmas.TcValueCycle",
-    "RotoV.Lemmas.TcValueCycleTarjan", "RotoV.Model.Tarjan", "RotoV.Lemmas.Tarjan", "RotoV.Lemmas.TarjanCtx", "RotoV.Lemmas.TarjanNoPanic",
+    "RotoV.Lemmas.TcValueCycleTarjan", "RotoV.Lemmas.TcValueCycleProg", "RotoV.Model.Tarjan", "RotoV.Lemmas.Tarjan", "RotoV.Lemmas.TarjanCtx", "RotoV.Lemmas.TarjanNoPanic",
 ]
 MODULES = [
     "RotoV.Lemmas.TcRules", "RotoV.Lemmas.UnifyTc", "RotoV.Lemmas.Typing", "RotoV.Lemmas.TypingAux", "RotoV.Lemmas.TypingMono", "RotoV.Lemmas.TypingProg",
